@@ -159,7 +159,8 @@ def forge_address(value: str, tz_only=False) -> bytes:
     """
     prefix_len = 4 if value.startswith('txr1') else 3
     prefix = value[:prefix_len]
-    address = base58.b58decode_check(value)[prefix_len:]
+    # NOTE: base58_decode also checks the binary prefix and the payload length of the kind, not only the checksum
+    address = base58_decode(value.encode())
 
     if prefix == 'tz1':
         res = b'\x00\x00' + address
